@@ -22,6 +22,7 @@ E = [
      [(F, "impl CFormatter<'tcx>::fmt_primitive_as_c"), (F, "impl CFormatter<'tcx>::fmt_primitive_name_for_derived_type")], 2, ["C01", "C15"], "complete", "none (finite domain enumerated symbolically)"),
     ("c_str_view_names", "string view names: 16-bit encodings use the *16View mirrors", [(F, "impl CFormatter<'tcx>::fmt_str_view_name"), (F, "impl CFormatter<'tcx>::fmt_strs_view_name")], None, ["C01"], "complete", "none"),
 ]
+# (fmt_optional_type_name as a Kani harness: no verdict in 30 min (Cow::to_string goes through fmt) -> Verus unit c_option_names)
 # (format!-built names fmt_ptr / fmt_primitive_slice_name were tried as concrete-input harnesses: > 25 min in CBMC, dropped)
 define(globals(), "c_tables", "tool", F, "verif_c_tables", "c_tables.rs",
        {"C01": "C type spellings chosen by the C backend denote the ABI the Rust extern \"C\" layer compiled", "C15": "no panic outside Int128"},
